@@ -38,6 +38,7 @@ _case("x_zip_enum", xs=_L, ys=_L)
 _case("x_try", a=Int(-6, 6), items=_L)
 _case("x_chain_cmp", a=_I, b=_I, c=_I)
 _case("x_iadd_subscript", items=_L, v=Int(0, 5))
+_case("x_minmax_single", a=_I)
 
 from spec import xcheck_cases as _xc  # noqa: E402
 
